@@ -665,6 +665,9 @@ package plenccodec
 //@   loop 1 step[C13,C03] called_Skip ==> (forall k int :: 0 <= k && k < len(d.Elements) ==> d.Elements[k].Index != call_ReadTag_r1)
 //@   # success is reported only when every field of the data has been walked (the loop ran to the end of the data)
 //@   ensures[C13,C03] err == nil ==> loopdone_1 || len(data) == 0
+//@   # acceptance ("walking Marshal(v) succeeds"): the walker makes an error of its own only for a tag or length prefix that
+//@   # cannot be read, a length prefix that overruns the data, an unknown field that Skip rejects, or a field whose walk fails
+//@   atcall fmt.Errorf [C13,C03] call_ReadTag_r2 <= 0 || (called_Skip && call_Skip_r1 != nil) || (called_ReadVarUint && (call_ReadVarUint_r1 <= 0 || call_ReadVarUint_r0 > uint64(l - offset))) || (called_Descriptor_read && call_Descriptor_read_r1 != nil)
 
 //@ func plenccodec.*Descriptor.readAsMapEntry
 //@   safety C04 C13
@@ -687,6 +690,8 @@ package plenccodec
 //@   ensures[C13] err == nil && loopdone_1 && !exit_seenKey ==> called_Outputter_String
 //@   ensures[C13] err == nil && loopdone_1 && !exit_seenValue ==> called_Descriptor_zero && call_Descriptor_zero_arg0 == d.Elements.ptr + 88
 //@   ensures[C13] err == nil && d.Elements[0].Type == 4 ==> loopdone_1
+//@   # acceptance, as for readAsStruct
+//@   atcall fmt.Errorf [C13] call_ReadTag_r2 <= 0 || (called_Skip && call_Skip_r1 != nil) || (called_ReadVarUint && (call_ReadVarUint_r1 <= 0 || call_ReadVarUint_r0 > uint64(l - offset))) || (called_Descriptor_read && call_Descriptor_read_r1 != nil)
 
 //@ func plenccodec.*Descriptor.zero
 //@   safety C13
